@@ -457,6 +457,14 @@ def coerce(path, v, shape):
         path.write_field(obj, 'items', items)
         path.write_field(obj, 'len', SV(IntS, z3.IntVal(len(v.items))))
         return obj
+    if isinstance(shape, RefS) and shape.cls in CONTAINERS and CONTAINERS[shape.cls][0] == 'list' \
+            and type(v).__name__ == 'VView' and path is not None and getattr(v, 'filter', None) is None:
+        # list(d.values()) / list(d) stored or returned as a list: as many
+        # elements as the dict has entries (their order is unspecified)
+        obj = SRef(shape, path.new_id())
+        path.write_field(obj, 'len', path.read_field(v.d, 'size'))
+        path.pc.append(path.read_field(v.d, 'size').e >= 0)
+        return obj
     if isinstance(v, SOpt) and not isinstance(shape, OptS):
         # caller must have established not-None
         return coerce(path, v.val, shape)
